@@ -35,10 +35,11 @@ if HERE not in sys.path:
     sys.path.insert(0, HERE)
 from common import run_driver, device_classes  # noqa: E402
 from props.moncommon import Mon, DEVS, WIDTHS, install_timer, tohex  # noqa: E402
+import disgen  # noqa: E402
 
 ID = 'C19'
-LEAN_MODULES = ['Py65.Props.C19', 'Py65.Props.C19b']
-NAMESPACES = ['Py65.Props.C19']
+LEAN_MODULES = ['Py65.Props.C19', 'Py65.Props.C19b', disgen.GENEQ_MODULE, 'Py65.Props.C19g']
+NAMESPACES = ['Py65.Props.C19', 'Py65.Props.C19g', disgen.GENEQ_NAMESPACE]
 LEVEL = 'proof'
 USES_PROLOGUE = True
 USES_GEN = False
@@ -46,14 +47,25 @@ EXPECTED_THEOREMS = [
     'Py65.Props.C19.tilde_consistent', 'Py65.Props.C19.fmt_roundtrip_hex', 'Py65.Props.C19.fmt_roundtrip_bin',
     'Py65.Props.C19.repr_roundtrip', 'Py65.Props.C19.repr_flag_bits', 'Py65.Props.C19.disasm_shows_bytes',
     'Py65.Props.C19.cycles_shows_counter',
-]
+    # itoa: the same for the GENERATED function (tie by regeneration, harness/py2lean_dis.py)
+    'Py65.Props.C19g.itoa_roundtrip_bin', 'Py65.Props.C19g.itoa_roundtrip_hex', 'Py65.Props.C19g.itoa_roundtrip_dec',
+    'Py65.Props.C19g.itoa_other_base', 'Py65.Props.C19g.itoa_flag_bits', 'Py65.Props.C19g.tilde_bin_line',
+    'Py65.Props.C19g.disasm_shows_bytes',
+] + disgen.GENEQ_THEOREMS
+pre_build = disgen.pre_build
 RULE = ('one evaluation = one displayed text checked against the true state; distinct = distinct '
         '(kind of display, device, boundary-class vector of the values shown) tuples; non-trivial = the display '
         'shows at least one non-zero value or a wrap / line break')
 TRUSTED = [
+    'itoa / _itoa_fmts (py65/utils/conversions.py) and the instruction text of the disassemble lines: '
+    + disgen.TRUSTED_TEXT,
+    disgen.MODELLED_TEXT,
     'hand models Py65.Model.Fmt (MPU.__repr__ of the three devices, status print, cycles, _format_disassembly) '
-    'and Py65.Model.PyStr (%0Nx, %u, %04o, itoa, rjust/zfill) -- tied to the real code by sampled '
-    'correspondence only (this check), text compared byte for byte',
+    'and Py65.Model.PyStr (%0Nx, %u, %04o, rjust/zfill; itoa = fmtBinL/fmtDecL/toDigits 16 is now PROVED of the '
+    'generated itoa: itoa_eq_*) -- Model.Fmt is tied to the real code by sampled correspondence only (this check), '
+    'text compared byte for byte; Model.Fmt.formatDisassembly is now PROVED equal to the generated '
+    'Monitor._format_disassembly (format_disassembly_eq); MPU.__repr__ / reprformat, do_cycles and the loop of '
+    'do_disassemble are NOT regenerated',
     'the independent Python parser of this module (fields located from the header line)',
     "`mem` is proved in C16's mem_exact; here it is checked on the real code by the independent parser only",
     'the instruction text of `disassemble` is the subject of C08/C09; here its byte column, its length and its '
